@@ -724,6 +724,16 @@ def _as_expression(stmts):
         if st.orelse and not always_exits(st.orelse):
             return None
         return ast.IfExp(test=st.test, body=a, orelse=b)
+    if isinstance(st, ast.For) and not st.orelse and len(stmts) == 2 and isinstance(stmts[1], ast.Return) \
+            and isinstance(stmts[1].value, ast.Constant) and isinstance(stmts[1].value.value, bool) \
+            and len(st.body) == 1 and isinstance(st.body[0], ast.If) and not st.body[0].orelse \
+            and len(st.body[0].body) == 1 and isinstance(st.body[0].body[0], ast.Return) \
+            and isinstance(st.body[0].body[0].value, ast.Constant) and st.body[0].body[0].value.value is (not stmts[1].value.value):
+        # search loop: `for x in it: if c: return True` / `return False`  ==  any(c for x in it)   (and the all() dual)
+        found = st.body[0].body[0].value.value
+        test = st.body[0].test if found else ast.UnaryOp(op=ast.Not(), operand=st.body[0].test)
+        gen = ast.GeneratorExp(elt=test, generators=[ast.comprehension(target=st.target, iter=st.iter, ifs=[], is_async=0)])
+        return ast.Call(func=ast.Name(id="any" if found else "all", ctx=ast.Load()), args=[gen], keywords=[])
     return None
 
 
